@@ -622,6 +622,9 @@ def compressed_jobs(lat, rng, n):
                    "compress_mode": rng.choice(["auto", "auto", "basic", "virtual-tree", "full-bond"]),
                    "tree_gauge_distance": rng.choice([0, 1, 2]), "compress_span": rng.choice([True, False, 2]),
                    "strip_exponent": rng.random() < 0.25, "gauges": rng.random() < 0.15}
+            if cfg["gauges"]:
+                # simple-update gauges go with the 'basic' pairwise compression ('auto' selects it)
+                cfg["compress_mode"] = rng.choice(["auto", "basic"])
 
             def call(rec, cap, cfg=cfg):
                 kw = {}
